@@ -294,7 +294,8 @@ def run_exp(sh, ctx):
 		try:
 			qs = [np.array(q['sig'], dtype=w.dtype) for q in w.queries]
 			strict = rng.random() < 0.5
-			params = QueryParams(classify_strict=strict, report_closest=rng.choice([1, 3, 10]), chunksize=rng.choice([1, 1000]))
+			params = QueryParams(classify_strict=strict, report_closest=rng.choice([0, 1, 3, 10]), chunksize=rng.choice([1, 1000, None]))     # None = no chunking (documented), 0 = no closest-genomes list
+			ctx.count(f'params:chunksize={params.chunksize}'); ctx.count(f'params:report_closest={params.report_closest}')
 			inputs = []
 			for qi, q in enumerate(w.queries):
 				c = rng.random()
@@ -443,6 +444,8 @@ def finalize(merged, tier, seed, inconclusive):
 	c = merged['counters']
 	if c.get('two_genome_set_archives_through_one_reader', 0) == 0:
 		inconclusive.append('class never observed: two_genome_set_archives_through_one_reader')
+	if c.get('params:chunksize=None', 0) == 0:
+		inconclusive.append('class never observed: params:chunksize=None')
 	if c.get('results_with_edge_distances', 0) == 0:
 		inconclusive.append('class never observed: results_with_edge_distances')
 	need = ['format:csv', 'format:json', 'format:archive', 'csv_ok', 'json_ok', 'archive_ok', 'feature:no-prediction', 'feature:unreportable-predicted-taxon', 'feature:failed-strict-result',
